@@ -109,6 +109,13 @@ CHECKS = {
             'column 1..16384 thorough), COLUMN() in 6 columns with and without an entry cell',
             'trusted: planted unique partner values; openpyxl get_column_letter cross-checks the base-26 routine',
             'DESIGN.md section 2 C14'),
+    'C11': ('bounded-exhaustive enumeration of cell-content vectors x area shapes x splits x aggregate functions on the real '
+            'pipeline, judged by an independent fold and by differential split laws',
+            'all content vectors of length 1..4 (5 thorough) over 10 kinds planted into a row, a column, a rectangle and two other '
+            'sheets x 10-13 argument forms (areas, whole column, every split, repeated area, single cells, scalars) x SUM / AVERAGE / '
+            'MIN / MAX / COUNT (+ COUNTBLANK on single areas); AND / OR / IF(AND) over all vectors up to length 4 over 5 truth kinds in '
+            '5 forms; vectors up to length 2 as workbook constants',
+            'trusted: the 20-line reference fold; dates count as serial numbers (Excel)', 'DESIGN.md section 2 C11'),
 }
 
 PENDING_REASON = 'check not built yet in this session; see DESIGN.md section 2 for the planned model-checking approach'
